@@ -99,6 +99,27 @@ class TlcResult:
                 res.append(json.loads(body))
         return res
 
+    def printed_chunks(self, tag, chunk=50000):
+        """Like printed(), but yields lists of at most `chunk` parsed values (bounded memory for millions of exported states)."""
+        pref = '<<"%s", "' % tag
+        res = []
+        start = 0
+        out = self.out
+        n = len(out)
+        while start < n:
+            end = out.find("\n", start)
+            if end < 0:
+                end = n
+            if out.startswith(pref, start) and out.endswith('">>', start, end):
+                body = out[start + len(pref):end - 3].replace('\\"', '"').replace("\\\\", "\\")
+                res.append(json.loads(body))
+                if len(res) >= chunk:
+                    yield res
+                    res = []
+            start = end + 1
+        if res:
+            yield res
+
     def coverage_zero_actions(self):
         """Names of actions whose coverage line reports 0 taken (needs coverage=True)."""
         zero = []
